@@ -1,5 +1,6 @@
 import Percival.Proofs.EventsC04Run
 import Percival.Proofs.TimerQueue
+import Percival.Proofs.EventsStep
 /-!
 # C04 — event loop: a callback runs at most once, only while registered, only when due
 
@@ -123,5 +124,40 @@ def tqContract : TQContract :=
 /-- `run_admissible_C04` with no hypothesis left about the timer queue -/
 theorem run_admissible_C04_closed (fuel : Nat) (prog : List Top) : C04.admissible (run fuel prog) = true :=
   run_admissible_C04 tqContract fuel prog
+
+/-! ## the functions the executables run
+
+`pmodel events` applies `Model.Events.stepOp` to every parsed line: `stepTop runFuel` with the event log cut
+before and after (the line shows the events of this step).  `pmodel eventsmon` applies `Spec.Events.monStep` to the
+events of every line of the implementation.  The drivers contain only the parsers and the printers. -/
+
+open Percival.Proofs.EventsStep in
+/-- **The model does not read its event log** (so cutting it is invisible), and the lines printed for a program
+are exactly the trace `run` of that program — the object of `run_admissible_C04` — cut into lines. -/
+theorem exec_lines_are_run (prog : List Top) :
+    (∀ (s : State) (T : List Ev) (t : Top), stepTop runFuel (app s T) t = app (stepTop runFuel s t) T) ∧
+    run runFuel prog = (runOps {} prog).2.flatten :=
+  ⟨fun s T t => stepTop_app runFuel s T t, run_eq_lines prog⟩
+
+example : (runOps {} demo).2.flatten.length = 30 := by
+  rw [← (exec_lines_are_run demo).2]; decide +kernel
+
+open Percival.Proofs.EventsStep in
+/-- **Soundness of the executable C04 monitor for the model**: for every program, feeding the lines that
+`pmodel events` prints to `pmodel eventsmon c04`, line by line, yields `ok` on every line. -/
+theorem model_lines_accepted_C04 (prog : List Top) : acceptsLines true false {} (runOps {} prog).2 = true := by
+  apply acceptsLines_of_flatten
+  · have h := run_admissible_C04_closed runFuel prog
+    rw [run_eq_lines] at h
+    simp only [C04.admissible] at h
+    simp only [if_true]
+    show IsOk (C04.run {} (runOps {} prog).2.flatten)
+    cases hr : C04.run {} (runOps {} prog).2.flatten with
+    | ok m => exact ⟨m, rfl⟩
+    | error e => rw [hr] at h; cases h
+  · exact ⟨{}, rfl⟩
+
+-- the monitor pair does reject: a callback that was never registered
+example : acceptsLines true false {} [[.cb 7]] = false := by decide
 
 end Percival.C04
